@@ -24,7 +24,7 @@ const (
 
 var propRules = map[string]*PropSpec{
 	"C01": {
-		Rules:       []string{"A1.kernel", "A6.kernel", "F1", "F8.bitmap", "F8.run", "F10", "F3.32", "A1.api32", "A2.32", "A3.32", "F11"},
+		Rules:       []string{"A1.kernel", "A6.kernel", "F1", "F8.bitmap", "F8.run", "F10", "F3.32", "A1.api32", "A2.32", "A3.32", "F11", "F8.scratch"},
 		Explanation: explBase + " C01: kernels never write operands, results are fresh, every kind pairing is dispatched, results are re-typed at the 4096 threshold and run results re-minimised, empty results are elided, x.Op(x) is guarded.",
 		Decided: []string{
 			"operands of every container kernel are never written (3 kinds x all methods) and non-in-place kernels leave the receiver unchanged",
@@ -41,7 +41,7 @@ var propRules = map[string]*PropSpec{
 		Technique:  techMix,
 	},
 	"C02": {
-		Rules:       []string{"A2.32", "A3.32", "F3.32", "F8.bitmap", "F8.run", "F5"},
+		Rules:       []string{"A2.32", "A3.32", "F3.32", "F8.bitmap", "F8.run", "F5", "F8.scratch"},
 		Explanation: explBase + " C02: every mutator obtains its container through the copy-before-write gate, stores only owned containers, drops emptied chunks, keeps flags aligned with moved containers, re-types/minimises results and inserts at a position searched in the same table.",
 		Decided: []string{
 			"every payload write of Add/CheckedAdd/Remove/CheckedRemove/AddRange/RemoveRange/Flip/AddMany goes through an owned container (gate or fresh)",
@@ -68,7 +68,7 @@ var propRules = map[string]*PropSpec{
 		Technique:   "static analysis: CFG reachability after the stop edge (go/ssa), AST type-switch exhaustiveness, ownership summaries",
 	},
 	"C05": {
-		Rules:       []string{"B1", "B2", "B5", "L2", "L5", "A4", "F8.bitmap", "A8", "G1"},
+		Rules:       []string{"B1", "B2", "B5", "L2", "L5", "A4", "F8.bitmap", "A8", "G1", "F8.scratch"},
 		Explanation: explBase + " C05: error propagation on every encode/decode path, byte accounting of writers and readers, bounded reads, agreement of size prediction / writer / reader on the offset-header predicate and payload sizes, and flagging of zero-copy payloads.",
 		Decided: []string{
 			"the copying decoders (ReadFrom, UnmarshalBinary, FromBase64) keep no pointer into the caller's slice; only the documented zero-copy constructors do",
@@ -116,7 +116,7 @@ var propRules = map[string]*PropSpec{
 		Technique:  "static analysis: taint propagation of caller-owned slices over go/ssa + ownership typestate",
 	},
 	"C09": {
-		Rules:       []string{"F3.32", "F8.bitmap", "F8.run", "F2", "V1", "V2", "A6.kernel", "A2.32", "A3.32"},
+		Rules:       []string{"F3.32", "F8.bitmap", "F8.run", "F2", "V1", "V2", "A6.kernel", "A2.32", "A3.32", "F8.scratch"},
 		Explanation: explBase + " C09: the producer side of each Validate conjunct that has a structural form (no empty chunk stored, array/bitmap threshold, runs minimised, lazy cardinality repaired) and the validator's own conjunct table.",
 		Decided:     []string{"no may-empty result is stored without an emptiness test", "bitmap containers are returned only behind cardinality > 4096; run containers reach slots minimised", "lazy kernels that write a bitmap invalidate or recompute the cached cardinality and every lazy aggregate is repaired before it is returned", "Validate calls every per-kind validator on every container and each listed conjunct is present", "containers are never shared unflagged between bitmaps (a later mutation of one would silently invalidate the other)"},
 		NotDecided:  []string{"key order and strict sortedness of payloads after arbitrary kernels (value level)"},
@@ -132,7 +132,7 @@ var propRules = map[string]*PropSpec{
 		Technique:  techErr + "; taint of decoded sizes",
 	},
 	"C11": {
-		Rules:       []string{"F9", "F2", "A1.api32", "A1.slices", "A2.32", "A3.32", "A6.kernel", "U1"},
+		Rules:       []string{"F9", "F2", "A1.api32", "A1.slices", "A2.32", "A3.32", "A6.kernel", "U1", "F8.scratch"},
 		Explanation: explBase + " C11: singleton behaviour of the aggregate siblings, lazy->repair discipline, inputs and the caller's slice unchanged, scratch containers never end up in the result.",
 		Decided:     []string{"every aggregate of one bitmap returns a fresh bitmap", "every lazy union result is repaired before it is returned / sent; lazy kernels mark the cardinality invalid", "aggregates never change their inputs' contents nor the caller's slice", "kernel results never alias the argument, so AndAny's reused scratch containers cannot be stored in x", "no 16-bit arithmetic in the key-range partition of ParOr"},
 		NotDecided:  []string{"key-range partition arithmetic of ParOr", "heap grouping", "that the fold is the right fold", "worker-count independence of the result"},
@@ -155,7 +155,7 @@ var propRules = map[string]*PropSpec{
 		Technique:   "static analysis: sibling table extraction from type switches (AST + go/constant), dominance",
 	},
 	"C14": {
-		Rules:       []string{"F8.run", "F8.bitmap", "F3.32", "L7"},
+		Rules:       []string{"F8.run", "F8.bitmap", "F3.32", "L7", "F8.scratch"},
 		Explanation: explBase + " C14: the representation-minimisation clause the bound relies on, and the documented constants of BoundSerializedSizeInBytes.",
 		Decided:     []string{"no chunk is left as an un-minimised run container after a mutation or a set operation; shrinking bitmap results are converted at 4096", "no empty chunk is left in the table (it would cost header bytes for zero values)", "BoundSerializedSizeInBytes is the documented affine form (8 bytes header + per-chunk overhead + 2 bytes/value)"},
 		NotDecided:  []string{"the inequality itself for every history"},
@@ -169,7 +169,7 @@ var propRules = map[string]*PropSpec{
 		Technique:   "static analysis: integer-width rule over go/ssa with a triaged allow-list; ownership summaries",
 	},
 	"C16": {
-		Rules:       []string{"A1.api32", "A3.32", "A6.kernel", "F5", "F6", "A4", "F3.32", "F8.bitmap", "F8.run"},
+		Rules:       []string{"A1.api32", "A3.32", "A6.kernel", "F5", "F6", "A4", "F3.32", "F8.bitmap", "F8.run", "F8.scratch"},
 		Explanation: explBase + " C16: AddOffset/Flip/ToDense leave b unchanged; results hold only fresh or properly shared containers; static Flip inserts at the answer's index; addOffset nil discipline; FromDense(no copy) never writes the caller's words; shifted parts are re-typed.",
 		Decided:     []string{"AddOffset/AddOffset64/Flip/ToDense/WriteDenseTo never change their bitmap argument", "AddOffset64 and static Flip store only fresh containers or certified hand-offs", "static Flip inserts with an index searched in the answer", "addOffset never returns a typed nil inside the container interface", "FromDense without copy flags the container whenever its payload is the caller's slice", "Flip drops empty results; addOffset parts are returned in their cheapest representation"},
 		NotDecided:  []string{"offset/carry arithmetic", "dense bit layout", "floor division for negative offsets"},
